@@ -2,6 +2,7 @@
 //! generated crates (closure library, interpreter, driver, comparison).
 pub mod ast;
 pub mod cl;
+pub mod docex;
 pub mod drive;
 pub mod emit;
 pub mod interp;
